@@ -469,6 +469,17 @@ class Path:
         for a, v in self.conds:
             if a == atom:
                 return v
+        for a, v in self.conds:
+            if v is True and a[0] == "and":
+                if atom in a[1]:
+                    return True
+                if ("not", atom) in a[1]:
+                    return False
+            if v is False and a[0] == "or":
+                if atom in a[1]:
+                    return False
+                if ("not", atom) in a[1]:
+                    return True
         return None
 
     def __repr__(self):
@@ -512,6 +523,7 @@ class SymExec:
         self._const_cache = {}
         self._sig_cache = {}
         self._paths_cache = {}
+        self._closures = {}
 
     # ------------------------------------------------------------------ public entry points
     def run(self, module, fn, args=None, selfname=None):
@@ -634,6 +646,11 @@ class SymExec:
             else:
                 yield from self._block(node.orelse, st, module, depth)
         elif isinstance(node, (ast.Import, ast.ImportFrom, ast.Global, ast.Nonlocal)):
+            yield st, None, None
+        elif isinstance(node, ast.FunctionDef) and not node.decorator_list:
+            # a local closure: interpreted at its call sites with the enclosing frame's current bindings
+            self._closures[id(node)] = node
+            st.env[node.name] = ("closure", id(node))
             yield st, None, None
         elif isinstance(node, ast.For) and not node.orelse:
             it = self.ev(node.iter, st, module, depth)
@@ -801,6 +818,13 @@ class SymExec:
                 return self.ev(e.body, st, module, depth)
             st.conds.append((atom, not pol))
             return self.ev(e.orelse, st, module, depth)
+        if isinstance(e, ast.Lambda):
+            if id(e) not in self._closures:
+                fn = ast.FunctionDef(name="<lambda>", args=e.args, body=[ast.Return(value=e.body)], decorator_list=[], returns=None)
+                ast.copy_location(fn, e)
+                ast.fix_missing_locations(fn)
+                self._closures[id(e)] = fn
+            return ("closure", id(e))
         if hasattr(ast, "Index") and isinstance(e, getattr(ast, "Index")):  # py3.8
             return self.ev(e.value, st, module, depth)
         return ("unk", type(e).__name__)
@@ -854,6 +878,15 @@ class SymExec:
         kw = []
         for k in e.keywords:
             kw.append((k.arg if k.arg is not None else "**", self.ev(k.value, st, module, depth)))
+        if any(k == "**" and v[0] == "dict" and all(x[0] == "k" and isinstance(x[1], str) for x, _ in v[1]) for k, v in kw):
+            kw2 = []  # f(**{"a": x, ...}) with a literal dict is f(a=x, ...)
+            for k, v in kw:
+                if k == "**" and v[0] == "dict" and all(x[0] == "k" and isinstance(x[1], str) for x, _ in v[1]):
+                    kw2.extend((x[1], y) for x, y in v[1])
+                else:
+                    kw2.append((k, v))
+            if len({k for k, _ in kw2}) == len(kw2):
+                kw = kw2
         callee = self.ev(e.func, st, module, depth)
         if self.drop_reshape and callee[0] == "attr" and callee[2] == "reshape":
             return callee[1]
@@ -861,6 +894,12 @@ class SymExec:
             if pos[0] == ("self",):
                 return st.env.get(("sattr", pos[1][1]), ("sattr", pos[1][1]))
             return ("attr", pos[0], pos[1][1])
+        if callee[0] == "closure" and callee[1] in self._closures and depth < self.depth + 2:
+            if not any(a and a[0] == "*" for a in pos) and not any(k == "**" for k, _ in kw):
+                r = self._inline(e, self._closures[callee[1]], module, pos, kw, st, depth, base_env=st.env)
+                if r is not None:
+                    return r
+            return ("unk", "closure call")
         if callee[0] == "sattr" and self.method_lookup is not None and depth < self.depth:
             hit = self.method_lookup(callee[1])
             if hit is not None and not any(a and a[0] == "*" for a in pos) and not any(k == "**" for k, _ in kw):
@@ -916,7 +955,7 @@ class SymExec:
             return None
         return self.repo.resolve_dotted(module, d)
 
-    def _inline(self, e, fn, fmod, pos, kw, st, depth):
+    def _inline(self, e, fn, fmod, pos, kw, st, depth, base_env=None):
         names, dflt, has_kwargs = self.signature(fmod, fn)
         if len(pos) > len(names) or has_kwargs or fn.args.vararg is not None:
             return None
@@ -930,6 +969,10 @@ class SymExec:
                 if n not in dflt:
                     return None
                 bound[n] = dflt[n]
+        if base_env is not None:
+            env_ = dict(base_env)
+            env_.update(bound)
+            bound = env_
         try:
             paths = self._paths(fmod, fn, bound, depth + 1)
         except (_NeedChoice, Undecidable):
